@@ -16,11 +16,12 @@ def run(ctx):
     return lattice_check(ctx, gen="math/IntegrationGen", judge="math/IntegrationJudge", harness="integration.cxx",
                          libs=["TFELMath", "TFELException"], level="model_checking",
                          rule="monomials t^k, k = 0..22, on the 16 intervals with bounds in {-1,0,1,2} (swapped and degenerate included) "
-                              "for the 15-point rule and its adaptive overload; t^k, k below the order, for RungeKutta2/4 (steps L/2^m) "
+                              "for the 15-point rule and its adaptive overload; 1/(x+3)^m on [a, +inf) and 1/(3-x)^m on (-inf, a], m = 2..4, a = -2..2, both orders "
+                              "of the bounds (exact rational integrals, adaptive overload); t^k, k below the order, for RungeKutta2/4 (steps L/2^m) "
                               "and RungeKutta42/54 (initial steps j L/16, j = 1..24, i.e. every position of the first step relative to "
                               "the interval), on 3 intervals; step-control model checked by TLC for D = 12; non-trivial = k >= 1 or an RK case",
                          nontrivial=lambda c: c["k"] >= 1 or c["kind"] != "quad",
-                         assumptions=["exact rational oracle for monomials; analytic integrands on unbounded intervals are not covered",
+                         assumptions=["exact rational oracle for monomials and for the rational integrands on half-infinite intervals (judged at 1e-8); integrals over the whole line and integrands with an unreliable error estimate are not covered",
                                       "RungeKutta2/4 are run with step sizes that divide the interval (power-of-two fractions)",
                                       "MC of the step control: states %d, transitions %d (pinned guard rejected with %s)" % (
                                           mc.distinct, mc.generated, pinned.violated)])
